@@ -1,0 +1,15 @@
+//go:build verif
+
+// Contracts for govc (contract-based deductive verification); comment-only, compiled only with -tags verif.
+package l1infotreesync
+
+// ---- fail-stop (C14): every exported entry point of the syncer, enumerated from the method set on each run.
+
+//@ schema exported-methods *L1InfoTreeSync
+//@   props C14
+//@   except Start
+//@   requires self != nil && self.processor != nil && self.processor.halted && self.processor.log != nil
+//@   nocalls
+//@   allowcalls isHalted
+//@   ensureserror sync.ErrInconsistentState
+//@   ensureszero
